@@ -168,7 +168,7 @@ def run_step(step, path, device_pin, devstate_path=None):
 
     class _P:
         pass
-    with Stack(dev, pin=_P()) as s:
+    with Stack(dev, pin=_P(), version_one=bool(step.get("v1"))) as s:
         # ledgerblue's TCP transport surfaces failures as socket errors, which the dongle
         # layer does not classify; here they come in the shapes it does classify
         s.bus.tcp_faults_as_hid = True
@@ -183,6 +183,8 @@ def run_step(step, path, device_pin, devstate_path=None):
                 pin = None
             if pin is not None:
                 s.protocol.pin = pin
+                if hasattr(s.protocol, "protocol_v2"):
+                    s.protocol.protocol_v2.pin = pin     # (legacy mode delegates to it)
                 plan = {}
                 for k, f in (step.get("plan") or {}).items():
                     plan[int(k)] = Fault(f[0], sw=f[1], processed=f[2])
@@ -235,7 +237,8 @@ def running_phase(s, dev, step, platform):
     in the bootloader, locked) two more.  -> 'served' if the manager is still answering
     requests at the end, 'interrupt' if it shut down"""
     from comm.server import RequestHandlerShutdown
-    req = {"command": "getPubKey", "version": 5, "keyId": "m/44'/0'/0'/0/0"}
+    req = {"command": "getPubKey", "version": 1 if step.get("v1") else 5,
+           "keyId": "m/44'/0'/0'/0/0"}
     s.bus.arm({0: Fault(step["running"])})
     r1, e1, _ = s.request(req)
     s.bus.arm({})
@@ -487,6 +490,10 @@ def gen_histories(spec, tmpdir):
                 cases.append({"platform": platform, "start": start, "steps": [
                     {"platform": platform, "force": force, "running": lk},
                     {"platform": platform}]})
+                # the same with the manager in legacy (--version-one) mode
+                cases.append({"platform": platform, "start": start, "steps": [
+                    {"platform": platform, "force": force, "running": lk, "v1": True},
+                    {"platform": platform, "v1": True}]})
                 cases.append({"platform": platform, "start": start, "steps": [
                     {"platform": platform, "force": force, "running": lk, "fs_fault": "write"},
                     {"platform": platform}]})
